@@ -36,7 +36,7 @@ def forms():
             for keykind in ("str", "modelsym", "plainsym"):
                 out.append(("dict:%s:%s" % (keykind, "".join(map(str, sub))), "ok"))
     out += [("pairs_unknown", "bad"), ("dict_unknown", "bad"), ("short", "bad"), ("long", "bad"),
-            ("dict_too_many", "bad"), ("array_long", "bad")]
+            ("dict_too_many", "bad"), ("array_long", "bad"), ("array_3x2", "bad"), ("array_3x3", "bad"), ("array_2x3", "bad")]
     return out
 
 
@@ -78,6 +78,10 @@ def build_arg(m, form, vals):
         return [vals["beta"], vals["gamma"], vals["mu"], 99.0], None
     if form == "array_long":
         return np.array([vals["beta"], vals["gamma"], vals["mu"], 99.0]), None
+    if form in ("array_3x2", "array_3x3", "array_2x3"):
+        # first dimension (or total) right for a careless length test, number of values wrong
+        r, c = int(form[6]), int(form[8])
+        return np.array([[vals[PARAMS[(i + j) % 3]] + j for j in range(c)] for i in range(r)], float), None
     if form == "dict_too_many":
         return {"beta": 1.0, "gamma": 2.0, "mu": 3.0, "zeta": 99.0}, None
     raise ValueError(form)
@@ -250,7 +254,7 @@ def main(argv=None):
     run.cov.update({
         "evaluations": len(seqs) + len(gjobs), "distinct_nontrivial": sum(1 for r in res if r["compared"]),
         "rule": "all sequences of <= %d assignments over %d input forms (list, tuple, array, column array, list/tuple of pairs in all 6 "
-                "orders, dict keyed by str / the model's symbol / a plain sympy.Symbol for all 7 non-empty subsets, and 6 rejected "
+                "orders, dict keyed by str / the model's symbol / a plain sympy.Symbol for all 7 non-empty subsets, and 9 rejected "
                 "forms)%s on a 3-parameter model whose right-hand side makes each parameter separately observable; after every "
                 "assignment ode and grad are evaluated on the same object and compared with a dict updated by the obvious rule; "
                 "values are distinct per position. grown-list leg: a full assignment (7 forms) -> [evaluate] -> param_list extended by one name -> "
